@@ -23,6 +23,7 @@ import z3
 from psvc.contract import Contract, Clause, register, T, And, Or, Not, Implies, If, asserted
 from psvc import spec
 from contracts.task import make_task
+from contracts.task_constraint import dated_kw
 from contracts.task_constraint import assume_valid_task, valid_placement, fresh_consts
 from contracts.resource import busy, decode
 
@@ -50,6 +51,11 @@ class RCBase(Contract):
             for ts in tuple(self.task_sets) + (tuple(self.thorough_task_sets) if tier == "thorough" else ()):
                 for extra in self.extra_cases(tier):
                     out.append(dict(res=wk, ts=ts, **extra))
+        # the same with release dates and due dates (soft / hard) on the tasks
+        sets = list(dict.fromkeys([self.task_sets[0], self.task_sets[-1]]))
+        for ts, dated in zip(sets, ("soft", "mixed")):
+            for extra in self.extra_cases(tier):
+                out.append(dict(res=self.worker_kinds[0], ts=ts, dated=dated, **extra))
         return out
 
     def make_resource(self, ps, P, case):
@@ -79,7 +85,7 @@ class RCBase(Contract):
             assume_valid_task(P, cls, f"t{i+1}", vdt)
             if "max" in vdt:
                 P.assume(P.int(f"t{i+1}_max") >= P.int(f"t{i+1}_min"))
-            t = make_task(ps, P, cls, f"t{i+1}", optional=opt, vdt=vdt)
+            t = make_task(ps, P, cls, f"t{i+1}", optional=opt, vdt=vdt, **dated_kw(case, i))
             self.require(ps, P, case, t, res, i)
             tasks.append(t)
         c = self.build_constraint(ps, P, case, res, tasks)
